@@ -29,6 +29,7 @@ type CallbackCtl struct {
 	mu     sync.Mutex
 	Count  map[string]int
 	FailAt map[string]int // kind -> 1-based call number that fails (0 = never)
+	Persist bool          // every call from the k-th on fails (several failures in flight at once)
 	Panic  bool           // panic instead of returning the error
 	Fired  map[string]int
 	Yield  func(site string) // optional scheduler yield
@@ -52,6 +53,7 @@ func (c *CallbackCtl) Reset() {
 	c.Count = map[string]int{}
 	c.FailAt = map[string]int{}
 	c.Panic = false
+	c.Persist = false
 }
 
 func (c *CallbackCtl) hit(kind string) error {
@@ -67,7 +69,7 @@ func (c *CallbackCtl) hit(kind string) error {
 	c.mu.Lock()
 	c.Count[kind]++
 	fire := false
-	if k := c.FailAt[kind]; k != 0 && c.Count[kind] == k {
+	if k := c.FailAt[kind]; k != 0 && (c.Count[kind] == k || c.Persist && c.Count[kind] > k) {
 		c.Fired[kind]++
 		fire = true
 	}
